@@ -45,10 +45,30 @@ struct Sim {
     pool: Vec<Msg>,
     reg: Registry,
     notes: Vec<Value>,
+    /// peers that exist only as routing-table entries: peer id -> 100 + seed
+    phantoms: std::collections::HashMap<PeerId, i64>,
 }
 
 fn peer_index(sim: &Sim, p: &PeerId) -> i64 {
-    sim.nodes.iter().position(|n| &n.peer == p).map(|i| i as i64).unwrap_or(-1)
+    sim.nodes
+        .iter()
+        .position(|n| &n.peer == p)
+        .map(|i| i as i64)
+        .or_else(|| sim.phantoms.get(p).copied())
+        .unwrap_or(-1)
+}
+
+/// distance between a peer and a record key: XOR of the SHA-256 digests, big-endian (computed
+/// here independently of the repository's own conversion)
+fn distance_u256(peer: &PeerId, key: &RecordKey) -> ant_evm::U256 {
+    use sha2::{Digest, Sha256};
+    let a = Sha256::digest(peer.to_bytes());
+    let b = Sha256::digest(key.as_ref());
+    let mut x = [0u8; 32];
+    for i in 0..32 {
+        x[i] = a[i] ^ b[i];
+    }
+    ant_evm::U256::from_be_bytes(x)
 }
 
 fn rtype_json(t: &RecordType) -> Value {
@@ -175,12 +195,12 @@ async fn settle(sim: &mut Sim, step: &mut Vec<Value>) {
 async fn deliver(sim: &mut Sim, m: Msg, step: &mut Vec<Value>) {
     match m {
         Msg::Replicate { to, holder, keys, .. } => {
-            if to >= 0 {
+            if to >= 0 && (to as usize) < sim.nodes.len() {
                 sim.nodes[to as usize].driver.verif_handle_replicate_cmd(holder, keys);
             }
         }
         Msg::Fetch { to, query, sender, .. } => {
-            if to >= 0 {
+            if to >= 0 && (to as usize) < sim.nodes.len() {
                 sim.nodes[to as usize].node.handle_network_event(NetworkEvent::QueryRequestReceived {
                     query,
                     channel: MsgResponder::FromSelf(Some(sender)),
@@ -203,13 +223,15 @@ fn dump_node(sim: &mut Sim, i: usize) -> Value {
             Some(r) => build::describe(&sim.reg, &r.value),
             None => json!({"t": "unreadable"}),
         };
-        held.push(json!({"key": build::key_name(&sim.reg, key.as_ref()), "type": rtype_json(t), "content": content}));
+        let dist = distance_u256(&sim.nodes[i].peer, &key).to_string();
+        held.push(json!({"key": build::key_name(&sim.reg, key.as_ref()), "type": rtype_json(t), "content": content, "dist": dist}));
     }
     held.sort_by_key(|v| v["key"].to_string());
     let self_addr = NetworkAddress::from_peer(sim.nodes[i].peer);
     let closest: Vec<i64> = sim.nodes[i].driver.verif_closest_k_value_local_peers().iter().map(|p| peer_index(sim, p)).collect();
     let cands: Vec<i64> = nethooks::get_replicate_candidates(&mut sim.nodes[i].driver, &self_addr).iter().map(|p| peer_index(sim, p)).collect();
-    json!({"held": held, "closest_k": closest, "candidates": cands})
+    let range = nethooks::get_responsible_distance_range(&mut sim.nodes[i].driver).map(|r| r.to_string());
+    json!({"held": held, "closest_k": closest, "candidates": cands, "range": range})
 }
 
 fn snapshot(sim: &mut Sim, eff: Value, log: Vec<Value>) -> Value {
@@ -223,7 +245,7 @@ fn snapshot(sim: &mut Sim, eff: Value, log: Vec<Value>) -> Value {
 
 async fn run_case_async(case: &Value) -> Value {
     let seeds: Vec<i64> = case["nodes"].as_array().unwrap().iter().map(|v| v.as_i64().unwrap()).collect();
-    let mut sim = Sim { nodes: vec![], pool: vec![], reg: Registry::default(), notes: vec![] };
+    let mut sim = Sim { nodes: vec![], pool: vec![], reg: Registry::default(), notes: vec![], phantoms: Default::default() };
     for s in &seeds {
         let kp = build::peer_kp(*s);
         let peer = kp.public().to_peer_id();
@@ -246,6 +268,36 @@ async fn run_case_async(case: &Value) -> Value {
                 let ok = nethooks::add_peer_to_routing_table(&mut sim.nodes[a].driver, peer, addr);
                 step.push(json!({"added": ok}));
                 settle(&mut sim, &mut step).await;
+            }
+            "phantom" => {
+                // peers that are only routing-table entries of node `node`
+                let i = op["node"].as_u64().unwrap() as usize;
+                let mut added = 0;
+                for sv in op["seeds"].as_array().unwrap() {
+                    let sd = sv.as_i64().unwrap();
+                    let peer = build::peer_id(sd);
+                    sim.phantoms.insert(peer, 100 + sd);
+                    let addr: Multiaddr = format!("/ip4/127.0.0.1/udp/{}/quic-v1/p2p/{}", 41000 + sd, peer).parse().unwrap();
+                    if nethooks::add_peer_to_routing_table(&mut sim.nodes[i].driver, peer, addr) {
+                        added += 1;
+                    }
+                }
+                step.push(json!({"added": added}));
+                settle(&mut sim, &mut step).await;
+            }
+            "set_range" => {
+                // the record store's responsible distance range of node `node`:
+                // "max", or just below / exactly at the distance of a key
+                let i = op["node"].as_u64().unwrap() as usize;
+                let range = if op["range"].as_str() == Some("max") {
+                    ant_evm::U256::MAX
+                } else {
+                    let k = build::key(&mut sim.reg, &op["range"]["key"]);
+                    let d = distance_u256(&sim.nodes[i].peer, &k);
+                    if op["range"]["below"].as_bool().unwrap_or(false) { d.saturating_sub(ant_evm::U256::from(1u8)) } else { d }
+                };
+                nethooks::set_responsible_distance_range(&mut sim.nodes[i].driver, range);
+                step.push(json!({"range": range.to_string()}));
             }
             "seed" => {
                 // a record enters node `node` through the real replication-path validation
